@@ -82,7 +82,7 @@ postfix_expr:
 		{
 			$$.s = ""
 			if $1.s == "" {
-				yylex.Error(errLValue($2))
+				fail(yylex, errLValue($2))
 			} else if n, ok := expand(yylex, $1); ok {
 				$$.n = n
 				set(yylex, $1.s, strconv.Itoa($$.n + 1))
@@ -92,7 +92,7 @@ postfix_expr:
 		{
 			$$.s = ""
 			if $1.s == "" {
-				yylex.Error(errLValue($2))
+				fail(yylex, errLValue($2))
 			} else if n, ok := expand(yylex, $1); ok {
 				$$.n = n
 				set(yylex, $1.s, strconv.Itoa($$.n - 1))
@@ -105,7 +105,7 @@ unary_expr:
 		{
 			$$.s = ""
 			if $2.s == "" {
-				yylex.Error(errLValue($1))
+				fail(yylex, errLValue($1))
 			} else if n, ok := expand(yylex, $2); ok {
 				$$.n = n + 1
 				set(yylex, $2.s, strconv.Itoa($$.n))
@@ -115,7 +115,7 @@ unary_expr:
 		{
 			$$.s = ""
 			if $2.s == "" {
-				yylex.Error(errLValue($1))
+				fail(yylex, errLValue($1))
 			} else if n, ok := expand(yylex, $2); ok {
 				$$.n = n - 1
 				set(yylex, $2.s, strconv.Itoa($$.n))
@@ -238,41 +238,84 @@ or_expr:
 
 land_expr:
 		               or_expr
-	|	land_expr LAND or_expr
+	|	land_expr LAND
+		{
+			// the right operand is not evaluated if the left operand is 0
+			$<expr>$ = expr{}
+			if l, ok := expand(yylex, $1); ok && l != 0 {
+				$<expr>$.n = 1
+			}
+			if $<expr>$.n == 0 {
+				yylex.(*lexer).skip++
+			}
+		}
+		or_expr
 		{
 			$$.n = 0
 			$$.s = ""
-			if l, ok := expand(yylex, $1); ok && l != 0 {
-				if r, ok := expand(yylex, $3); ok && r != 0 {
-					$$.n = 1
-				}
+			if $<expr>3.n == 0 {
+				yylex.(*lexer).skip--
+			} else if r, ok := expand(yylex, $4); ok && r != 0 {
+				$$.n = 1
 			}
 		}
 
 lor_expr:
 		             land_expr
-	|	lor_expr LOR land_expr
+	|	lor_expr LOR
+		{
+			// the right operand is not evaluated if the left operand is not 0
+			$<expr>$ = expr{}
+			if l, ok := expand(yylex, $1); ok && l != 0 {
+				$<expr>$.n = 1
+			}
+			if $<expr>$.n != 0 {
+				yylex.(*lexer).skip++
+			}
+		}
+		land_expr
 		{
 			$$.n = 0
 			$$.s = ""
-			if l, ok := expand(yylex, $1); ok && l != 0 {
+			if $<expr>3.n != 0 {
+				yylex.(*lexer).skip--
 				$$.n = 1
-			} else if r, ok := expand(yylex, $3); ok && r != 0 {
+			} else if r, ok := expand(yylex, $4); ok && r != 0 {
 				$$.n = 1
 			}
 		}
 
 cond_expr:
 		lor_expr
-	|	lor_expr '?' expr ':' cond_expr
+	|	lor_expr '?'
+		{
+			// only one of the second and third operands is evaluated
+			$<expr>$ = expr{}
+			if l, ok := expand(yylex, $1); ok && l != 0 {
+				$<expr>$.n = 1
+			}
+			if $<expr>$.n == 0 {
+				yylex.(*lexer).skip++
+			}
+		}
+		expr ':'
+		{
+			$<expr>$ = expr{}
+			if $<expr>3.n != 0 {
+				$<expr>$.n, _ = expand(yylex, $4)
+				yylex.(*lexer).skip++
+			} else {
+				yylex.(*lexer).skip--
+			}
+		}
+		cond_expr
 		{
 			$$.s = ""
-			if l, ok := expand(yylex, $1); ok {
-				if l != 0 {
-					$$.n, _ = expand(yylex, $3)
-				} else {
-					$$.n, _ = expand(yylex, $5)
-				}
+			if $<expr>3.n != 0 {
+				yylex.(*lexer).skip--
+				$$.n = $<expr>6.n
+			} else {
+				$$.n, _ = expand(yylex, $7)
 			}
 		}
 
@@ -282,7 +325,7 @@ expr:
 		{
 			$$.s = ""
 			if $1.s == "" {
-				yylex.Error(errLValue($2))
+				fail(yylex, errLValue($2))
 			} else {
 				var ok bool
 				if $2 == "=" {
@@ -372,15 +415,27 @@ func errLValue(op string) string {
 	return fmt.Sprintf("'%v' requires lvalue", op)
 }
 
-// set assigns value to the variable unless an error has been reported.
+// skipping reports whether the operand being parsed is not evaluated.
+func skipping(yylex yyLexer) bool {
+	return yylex.(*lexer).skip > 0
+}
+
+func fail(yylex yyLexer, msg string) {
+	if !skipping(yylex) {
+		yylex.Error(msg)
+	}
+}
+
 func set(yylex yyLexer, name, value string) {
-	if !yylex.(*lexer).failed {
+	if !skipping(yylex) && !yylex.(*lexer).failed {
 		yylex.(*lexer).env.Set(name, value)
 	}
 }
 
 func expand(yylex yyLexer, x expr) (int, bool) {
-	if x.s == "" {
+	if skipping(yylex) {
+		return 0, true
+	} else if x.s == "" {
 		return x.n, true
 	} else if v, set := yylex.(*lexer).env.Get(x.s); !set || v.Value == "" {
 		return 0, true
@@ -393,6 +448,9 @@ func expand(yylex yyLexer, x expr) (int, bool) {
 }
 
 func calculate(yylex yyLexer, l expr, op string, r expr) (x expr, ok bool) {
+	if skipping(yylex) {
+		return x, true
+	}
 	if l, ok1 := expand(yylex, l); ok1 {
 		if r, ok2 := expand(yylex, r); ok2 {
 			ok = true
